@@ -85,7 +85,8 @@ func (p popCtx) str() string {
 		}
 		return "{{ .x }}"
 	}
-	return []string{"plain", "a.b", "v-1", "text with { brace", "", "false", "{\"a\":{\"b\":1}}"}[p.r.Intn(7)]
+	return []string{"plain", "a.b", "v-1", "text with { brace", "", "false", "{\"a\":{\"b\":1}}",
+		"./conf//app.yaml", "dir/./sub/../x.json", "trailing/"}[p.r.Intn(10)]
 }
 
 // a value-or-reference, in either of its two YAML forms (the reference form sets unexported state)
